@@ -406,7 +406,7 @@ lzma_lzma2_block_size(const void *options)
 {
 	const lzma_options_lzma *const opt = options;
 
-	if (!IS_ENC_DICT_SIZE_VALID(opt->dict_size))
+	if (opt == NULL || !IS_ENC_DICT_SIZE_VALID(opt->dict_size))
 		return UINT64_MAX;
 
 	// Use at least 1 MiB to keep compression ratio better.
